@@ -140,6 +140,22 @@ func (p *FunctionBuilder) CreateFunction(m *bmodel.MethodEntry) (*gmodel.Functio
 	return fn, nil
 }
 
+// typeName spells t the way the generated file has to write it: a type of the setup
+// file's own package bare, an imported one under the name the setup file imports its
+// package by, and a type of any other package (reached through an imported struct)
+// under that package's own name, for which goimports adds the import.
+func typeName(pkg *packages.Package, imports util.ImportNames, t types.Type) string {
+	return types.TypeString(t, func(p *types.Package) string {
+		if p.Path() == pkg.PkgPath {
+			return ""
+		}
+		if name, ok := imports.LookupName(p.Path()); ok {
+			return name
+		}
+		return p.Name()
+	})
+}
+
 // createVar creates a gmodel.Var from a types.Var.
 // If the types.Var doesn't have a name, defName is used instead.
 func (p *FunctionBuilder) createVar(v *types.Var, defName string) gmodel.Var {
@@ -151,7 +167,7 @@ func (p *FunctionBuilder) createVar(v *types.Var, defName string) gmodel.Var {
 	typ, isPtr := util.Deref(v.Type())
 	return gmodel.Var{
 		Name:     name,
-		Type:     p.imports.TypeName(typ),
+		Type:     typeName(p.pkg, p.imports, typ),
 		Pointer:  isPtr,
 		External: p.imports.IsExternal(typ),
 	}
